@@ -5,7 +5,7 @@ from sa.loader import AnalysisError, norm, walk_local
 from sa.cfg import cfg_of
 from sa import guards
 from sa.spec import schema_spec as spec
-from .common import analysis, names_in, literals_tested, true_facts, value_sources
+from .common import analysis, names_in, literals_tested, true_facts, value_sources, resolve_local
 
 PROP = "C11"
 TECHNIQUE = "decision-table / pattern extraction of the full-name rule; sibling exhaustiveness of the three named-type arms by role (name computed, redefinition raise, registration) with CFG ordering; dominance of unknown-reference raises; regex AST comparison; default-kind table extraction against the spec; data-dependence of the decimal guards"
@@ -117,6 +117,19 @@ def run(ctx):
             good = False
         ctx.check("C11.R1", "record arm: the namespace for the fields is the record's own (from schema_name)", good, ps.where(pf[0]), f"_parse_schema record arm: fields parsed under `{norm(nsarg)}` <- {[(k, norm(w[0]) if k == 'unpack' else (norm(w) if k == 'expr' else getattr(w, 'arg', getattr(w, 'id', '?')))) for k, w in srcs]}", "fields of a record must resolve relative to the record's namespace, which the arm has to take from schema_name(schema, enclosing namespace)")
         ctx.holds("C11.R1", "record arm: fields parsed with that namespace", ps.where(pf[0]))
+    pfn = p.maybe_func("_schema_py:parse_field")
+    if pfn is None:
+        ctx.unrecognised("C11.R1", "parse_field", ps.where(), "parse_field not found")
+    else:
+        fparam, nsparam = pfn.pos_params[0], pfn.pos_params[1]
+        tstores = [n for n in walk_local(pfn.node) if isinstance(n, ast.Assign) and any(isinstance(t, ast.Subscript) and isinstance(t.slice, ast.Constant) and t.slice.value == "type" for t in n.targets)]
+        tdisplay = [n for n in ast.walk(pfn.node) if isinstance(n, ast.Dict) and any(isinstance(k, ast.Constant) and k.value == "type" for k in n.keys if k is not None)]
+        if not tstores and not tdisplay:
+            ctx.unrecognised("C11.R1", "parse_field", pfn.where(), "no store of the parsed field's type found")
+        for n in tstores:
+            v = resolve_local(pfn.node, n.value)
+            ok = isinstance(v, ast.Call) and isinstance(v.func, ast.Name) and v.func.id == ps.name and len(v.args) >= 2 and norm(resolve_local(pfn.node, v.args[0])) == f"{fparam}['type']" and norm(v.args[1]) == nsparam
+            ctx.check("C11.R1", "parse_field: the field's type is always what _parse_schema returns for it under the record's namespace", ok, pfn.where(n), f"parse_field: {norm(n)[:90]}", "a field type that does not go through the parser (e.g. an embedded, separately parsed schema reused as is) keeps names that were never qualified with the enclosing namespace")
     for kind, key in (("array", "items"), ("map", "values")):
         arm = R.arms.get(kind)
         calls = [c for c in arm_nodes(arm) if isinstance(c, ast.Call) and isinstance(c.func, ast.Name) and c.func.id == ps.name and c.args and norm(c.args[0]) == f"{R.schema}['{key}']"] if arm else []
